@@ -33,8 +33,9 @@ def make_root(base, backend, package_dir, filelist=("/data/default1.root", "/dat
     shutil.copytree(STUBS, os.path.join(root, "stubs"), dirs_exist_ok=True)
     if package_dir:
         shutil.copytree(package_dir, os.path.join(root, "scripts"), dirs_exist_ok=True)
-        with open(os.path.join(root, "scripts", "filelist.txt"), "w") as f:
-            f.write("".join(x + "\n" for x in filelist))
+        if filelist is not None:
+            with open(os.path.join(root, "scripts", "filelist.txt"), "w") as f:
+                f.write("".join(x + "\n" for x in filelist))
     else:
         os.makedirs(os.path.join(root, "scripts"), exist_ok=True)
     if backend == "atlas":
@@ -88,15 +89,15 @@ def _read_dests(root):
     return out
 
 
-def invoke(root, argv, run_id, fault_at=0, cwd="/work"):
-    """One invocation of /scripts/runner.sh with the given arguments.  Returns what was observed."""
+def invoke(root, argv, run_id, fault_at=0, cwd="/work", script="/scripts/runner.sh"):
+    """One invocation of /scripts/runner.sh (or `script`) with the given arguments.  Returns what was observed."""
     vp = os.path.join(root, "vp")
     for f in ("counter", "commands"):
         try:
             os.unlink(os.path.join(vp, f))
         except OSError:
             pass
-    r = enter(root, ["/bin/bash", "-c", "cd %s && exec /scripts/runner.sh %s" % (cwd, " ".join(argv))],
+    r = enter(root, ["/bin/bash", "-c", "cd %s && exec %s %s" % (cwd, script, " ".join(argv))],
               env={"VP_FAULT_AT": str(fault_at), "VP_RUN_ID": run_id})
     cmds = []
     cf = os.path.join(vp, "commands")
